@@ -21,10 +21,21 @@ static void build(void) {
       }
   }
 }
-static int nprogs(int tier) { build(); return NP[tier]; }
-static void config(int tier, int prog, int * W, int * K) { build(); *W = P[tier][prog].W; *K = P[tier][prog].K; }
+/* overlapping bulk calls: various = 2 nested (an item of the outer call makes a bulk call of its own with another function),
+   various = 3 two threads make bulk calls with different functions at the same time */
+static void build2(void) {
+  static int built2; if (built2) return; built2 = 1; build();
+  for (int tier = 0; tier < 2; tier++) for (int W = 1; W <= 2; W++) for (int v = 2; v <= 3; v++) for (int n = 2; n <= (tier ? 4 : 3); n++) {
+    if (NP[tier] >= MAXP) continue;
+    prog_t * p = &P[tier][NP[tier]++]; memset(p, 0, sizeof *p);
+    p->n = n; p->various = v; p->res = 1; p->W = W; p->K = tier ? 2 : (n == 2 ? 2 : 1);
+  }
+}
+static int nprogs(int tier) { build2(); return NP[tier]; }
+static void config(int tier, int prog, int * W, int * K) { build2(); *W = P[tier][prog].W; *K = P[tier][prog].K; }
 static void describe(int tier, int prog, char * b, size_t n) {
-  build(); prog_t * p = &P[tier][prog];
+  build2(); prog_t * p = &P[tier][prog];
+  if (p->various >= 2) { snprintf(b, n, "%s bulk calls with different functions, %d items each", p->various == 2 ? "nested" : "two concurrent", p->n); return; }
   snprintf(b, n, "create_join_%s n=%d results=%s ids=%s attrs=%s layout=%s", p->various ? "various" : "many", p->n, p->res ? "given" : "NULL", p->ids ? "given" : "NULL", p->attrs ? "per-item" : "NULL",
 	   p->layout == 0 ? "packed" : p->layout == 1 ? "stride=2x" : "struct-embedded");
 }
@@ -44,9 +55,35 @@ static void * f1(void * a) { return f_common(a, 1); }
 static void * f2(void * a) { return f_common(a, 2); }
 static myth_func_t FN[3] = { f0, f1, f2 };
 
+/* overlapping calls */
+static long ov_arg[2][8]; static void * ov_res[2][8]; static volatile int ov_calls[2][8];
+static void * ov_inner(void * a) { long v = *(long *)a; MV_CHECK(v >= 200 && v < 208, "the inner call's function was applied to %ld, an item of the other bulk call", v); ov_calls[1][v - 200]++; return (void *)(v + 1000); }
+static void * ov_outer(void * a) {
+  long v = *(long *)a; MV_CHECK(v >= 100 && v < 108, "the outer call's function was applied to %ld, an item of the other bulk call", v);
+  ov_calls[0][v - 100]++;
+  if (cur->various == 2 && v == 101) { int r = myth_create_join_many_ex(0, 0, ov_inner, ov_arg[1], ov_res[1], 0, 0, sizeof(long), sizeof(void *), cur->n); MV_CHECK(r == 0, "inner bulk call returned %d", r); }
+  return (void *)(v + 1000);
+}
+static void * ov_thread(void * a) { int r = myth_create_join_many_ex(0, 0, ov_inner, ov_arg[1], ov_res[1], 0, 0, sizeof(long), sizeof(void *), cur->n); MV_CHECK(r == 0, "bulk call returned %d", r); return a; }
+static void run_overlap(void) {
+  int n = cur->n;
+  for (int i = 0; i < 8; i++) { ov_arg[0][i] = 100 + i; ov_arg[1][i] = 200 + i; ov_res[0][i] = ov_res[1][i] = (void *)0x1111; }
+  myth_thread_t t = 0;
+  if (cur->various == 3) t = myth_create(ov_thread, 0);
+  int r = myth_create_join_many_ex(0, 0, ov_outer, ov_arg[0], ov_res[0], 0, 0, sizeof(long), sizeof(void *), n); MV_CHECK(r == 0, "bulk call returned %d", r);
+  if (t) myth_join(t, 0);
+  for (int c = 0; c < 2; c++) for (int i = 0; i < 8; i++) {
+    int want = i < n ? 1 : 0;
+    MV_CHECK(ov_calls[c][i] == want, "%s call: item %d was executed %d time(s) by its own function, the sequential loop executes it %d time(s)", c ? "inner / second" : "outer / first", i, ov_calls[c][i], want);
+    MV_CHECK(ov_res[c][i] == (want ? (void *)(long)(1100 + 100 * c + i) : (void *)0x1111), "%s call: result slot %d holds %p", c ? "inner / second" : "outer / first", i, ov_res[c][i]);
+  }
+  mv_obs("overlap %d n=%d ok", cur->various, n);
+  mv_finish();
+}
 static void run(int tier, int prog) {
-  build(); cur = &P[tier][prog];
+  build2(); cur = &P[tier][prog];
   mv_start(cur->W);
+  if (cur->various >= 2) { run_overlap(); return; }
   int n = cur->n;
   /* storage: one array of item_t (struct-embedded), or separate padded arrays */
   static item_t items[9];
